@@ -92,6 +92,12 @@ pub fn from_cps(v: &Value) -> String {
 
 /// Run f, turning a panic of the code under test into Err(message) (a panic is data).
 thread_local! { static IN_CATCH: std::cell::Cell<u32> = std::cell::Cell::new(0); }
+thread_local! { static LAST_LOC: std::cell::RefCell<String> = std::cell::RefCell::new(String::new()); }
+
+/// source location (file:line) of the most recent panic caught on this thread
+pub fn last_panic_location() -> String {
+    LAST_LOC.with(|l| l.borrow().clone())
+}
 
 pub fn catch<T>(f: impl FnOnce() -> T + std::panic::UnwindSafe) -> Result<T, String> {
     IN_CATCH.with(|c| c.set(c.get() + 1));
@@ -117,6 +123,10 @@ pub fn catch<T>(f: impl FnOnce() -> T + std::panic::UnwindSafe) -> Result<T, Str
 pub fn quiet_panics() {
     let default = std::panic::take_hook();
     std::panic::set_hook(Box::new(move |info| {
+        if let Some(l) = info.location() {
+            let file = l.file().trim_start_matches("/repo/");
+            LAST_LOC.with(|x| *x.borrow_mut() = format!("{}:{}", file, l.line()));
+        }
         if IN_CATCH.with(|c| c.get()) == 0 {
             default(info);
         }
